@@ -35,6 +35,8 @@ class StreamV:
         self.on_read = None       # optional callback(ip, stream) before each read operation
         self.write_failed = False
         self.writes_fail_from = None   # read position from which the peer is gone for good: every later write / flush fails
+        self.eof_pending = False       # the peer is silent, not gone: a read past the scripted bytes waits (Poll::Pending) instead of EOF
+        self.stall_after = None        # None, or how many more bytes the peer takes before it stops reading (a write then waits forever)
 
     def __repr__(self):
         return "Stream(%s pos=%d/%d out=%d)" % (self.name, self.pos, len(self.inbound), len(self.out))
@@ -167,7 +169,51 @@ def m_io_future_poll(c, pin, cx):
             st.pending_at.discard(st.pos)
             st.ops.append(('pending', st.pos))
             return poll_pending(ip)
+        if st.eof_pending and not st.failed:
+            if fut.tag == 'read_exact':
+                need = len(seq(ip, fut.data[1]).items)
+            else:
+                need = int(re.search(r'\d+', fut.tag).group(0)) // 8
+            if st.pos + need > len(st.inbound) and st.refill is None:
+                st.ops.append(('pending', st.pos))
+                return poll_pending(ip)
+    if fut.tag == 'write_all':
+        st = stream_of(ip, fut.data[0])
+        if st.stall_after is not None and not st.failed:
+            data = list(items(ip, fut.data[1]))
+            done = _get_written(fut)
+            take = min(st.stall_after, len(data) - done)
+            if take > 0:
+                chunk = _Partial(data[done:done + take])
+                st.out.extend(chunk)
+                st.write_calls.append(chunk)
+                st.stall_after -= take
+                _set_written(fut, done + take)
+            if _get_written(fut) < len(data):
+                if st.write_calls and isinstance(st.write_calls[-1], _Partial):
+                    st.write_calls[-1].partial = True
+                st.ops.append(('write_stalled', _get_written(fut)))
+                return poll_pending(ip)
+            if st.write_calls and isinstance(st.write_calls[-1], _Partial):
+                st.write_calls[-1].partial = False
+            return poll_ready(ip, ok(ip, unit()))
     return poll_ready(ip, do_io(ip, fut))
+
+
+class _Partial(list):
+    """A chunk written while the peer was stalling; `partial` is True if the write it belongs to never completed."""
+    partial = False
+
+
+_WRITTEN = {}
+
+
+def _get_written(fut):
+    return _WRITTEN.get(id(fut), (None, 0))[1] if _WRITTEN.get(id(fut), (None, 0))[0] is fut else 0
+
+
+def _set_written(fut, n):
+    _WRITTEN[id(fut)] = (fut, n)
 
 
 # ----------------------------------------------------------------------------- time
@@ -314,6 +360,17 @@ def m_lock_lock(c, p):
     held = ip.env.setdefault('locks_held', [])
     held.append(id(deref(ip, p)))
     return Agg([Ptr(p.cell, p.path + (('f', 0),))], 'Guard')
+
+
+@model(r'^(?:\w+::)*(?:Mutex|RwLock)::<.*>::(try_lock|try_read|try_write|try_lock_for|try_lock_until)$')
+def m_lock_try(c, p, *a):
+    """Whether another thread holds the lock at this instant is the environment's choice: both outcomes are explored (parking_lot: Option<Guard>)."""
+    ip = c.ip
+    from .util import some, none
+    if ip.choose(2, 'try_lock') == 0:
+        ip.env.setdefault('events_lock', []).append('contended')
+        return none(ip)
+    return some(ip, Agg([Ptr(p.cell, p.path + (('f', 0),))], 'Guard'))
 
 
 @model(r'^<(?:\w+::)*(?:MutexGuard|RwLockReadGuard|RwLockWriteGuard)<.*> as (?:std::ops::)?(?:Deref|DerefMut)>::(deref|deref_mut)$')
@@ -475,6 +532,14 @@ def m_timeout_poll(c, pin, cx):
     else:
         may = not ip.env.get('no_timeouts')
     if may and ip.choose(2, 'timeout_elapses') == 1:
+        partial = ip.env.get('elapsed_after_partial_progress')
+        if partial is not None:
+            # the deadline passes after the inner future has made SOME progress (the harness stalls the peer and polls it once); if it
+            # completes all the same the deadline did not pass
+            r = partial(ip, dur, fut)
+            if isinstance(r, EnumV) and r.discr.concrete and r.discr.v == 0:
+                ip.env.setdefault('events', []).append(('timeout_inner_done',))
+                return poll_ready(ip, ok(ip, r.variants['Ready'][0]))
         ip.env.setdefault('timeouts_elapsed', []).append(dur)
         ip.env.setdefault('events', []).append(('timeout_elapsed',))
         cb = ip.env.get('on_timeout_elapsed')
